@@ -494,7 +494,7 @@ class simplify_chained_calls(FuncADLNodeTransformer):
         if n is None:
             return ast.Subscript(v, s, ast.Load())  # type: ignore
         assert isinstance(n, int), "Programming error: index is not an integer in tuple subscript"
-        if n >= len(v.elts):
+        if n >= len(v.elts) or n < -len(v.elts):
             raise FuncADLIndexError(
                 f"Attempt to access the {n}th element of a tuple only"
                 f" {len(v.elts)} values long."
@@ -511,7 +511,7 @@ class simplify_chained_calls(FuncADLNodeTransformer):
         n = s.value
         if n is None:
             return ast.Subscript(v, s, ast.Load())  # type: ignore
-        if n >= len(v.elts):
+        if n >= len(v.elts) or n < -len(v.elts):
             raise FuncADLIndexError(
                 f"Attempt to access the {n}th element of a tuple"
                 f" only {len(v.elts)} values long."
@@ -525,16 +525,19 @@ class simplify_chained_calls(FuncADLNodeTransformer):
         """
         sub = s.value
         assert isinstance(sub, (str, int))
-        return self.visit_Subscript_Dict_with_value(v, sub)
+        found = self.visit_Subscript_Dict_with_value(v, sub)
+        return found if found is not None else ast.Subscript(v, s, ast.Load())
 
     def visit_Subscript_Dict_with_value(self, v: ast.Dict, s: Union[str, int]):
-        "Do the lookup for the dict"
+        """Do the lookup for the dict. Returns `None` if the key is not there (or we can't tell
+        because some key is not a constant)"""
         for index, value in enumerate(v.keys):
-            assert isinstance(value, ast.Constant)
+            if not isinstance(value, ast.Constant):
+                return None
             if value.value == s:
                 return copy.deepcopy(v.values[index])
 
-        return ast.Subscript(v, s, ast.Load())  # type: ignore
+        return None
 
     def visit_Subscript_Of_First(self, first: ast.expr, s):
         """
@@ -563,12 +566,15 @@ class simplify_chained_calls(FuncADLNodeTransformer):
         """
         v = self.visit(node.value)
         s = self.visit(node.slice)
-        if type(v) is ast.Tuple:
-            return self.visit_Subscript_Tuple(v, s)
-        if type(v) is ast.List:
-            return self.visit_Subscript_List(v, s)
-        if type(v) is ast.Dict:
-            return self.visit_Subscript_Dict(v, s)
+        # Only a constant index or key can be looked up here
+        if isinstance(s, ast.Constant) and type(s.value) in (int, bool):
+            if type(v) is ast.Tuple:
+                return self.visit_Subscript_Tuple(v, s)
+            if type(v) is ast.List:
+                return self.visit_Subscript_List(v, s)
+        if isinstance(s, ast.Constant) and type(s.value) in (int, bool, str):
+            if type(v) is ast.Dict:
+                return self.visit_Subscript_Dict(v, s)
 
         if is_call_of(v, "First"):
             return self.visit_Subscript_Of_First(v.args[0], s)
@@ -611,6 +617,8 @@ class simplify_chained_calls(FuncADLNodeTransformer):
 
         visited_value = self.visit(node.value)
         if isinstance(visited_value, ast.Dict):
-            return self.visit_Subscript_Dict_with_value(visited_value, node.attr)
+            found = self.visit_Subscript_Dict_with_value(visited_value, node.attr)
+            if found is not None:
+                return found
 
         return ast.Attribute(value=visited_value, attr=node.attr, ctx=ast.Load())
